@@ -51,6 +51,11 @@ class C15(C06):
             cval = rng.choice(["c" + hx("cv"), "m" + hx("ok1"), "m" + hx("bad1"), "m" + hx("bad2"), "m" + hx("ok2")])
             dval = rng.choice(["m" + hx("bad1"), "m" + hx("ok1"), "c" + hx("d")])
             reqs.append("%s:~:%s=%s&%s=%s&%s=%s" % (hx(m), hx("n"), n, hx("c"), cval, hx("d"), dval))
+        if rng.random() < 0.3:
+            # MANY distinct argument sets of one formatter kind (70-90 tags, all first used concurrently): bounded or
+            # evicting caches, rehashing and growth of the per-kind table happen while other threads look up
+            for t in range(rng.randint(70, 90)):
+                reqs.append("%s:~:%s=i1&%s=%s&%s=%s" % (hx("p4"), hx("n"), hx("c"), "m" + hx("ok%d" % t), hx("d"), "m" + hx("ok%d" % (t // 2))))
         rng.shuffle(reqs)
         body = "a:%s %s %s" % (hx(res), ",".join(resgen.FUNCS), ",".join(reqs))
         parts = []
